@@ -74,6 +74,31 @@ def tighten(text):
     return text
 
 
+def respace(text, mode, rng):
+    """the same statement with the blanks between its tokens changed: mode 'tight' removes every blank that is not
+    needed to keep two tokens apart, 'wide' puts two or three blanks at every token boundary (free form: blanks
+    between tokens are insignificant); tokens themselves -- literals, numbers, '(/', '::' ... -- are not touched"""
+    toks = split_tokens(text)
+    out = []
+    for n, (a, b, k) in enumerate(toks):
+        t = text[a:b]
+        if n:
+            pa, pb, pk = toks[n - 1]
+            had_blank = pb < a
+            wordish = lambda kk: kk in ("id", "num", "dot", "boz")     # noqa
+            must = (wordish(pk) and wordish(k)) or ((pk, k) in (("id", "str"), ("num", "str")) and had_blank) \
+                or (pk == "str" and wordish(k))
+            keep_tight = (pk, k) in (("id", "str"), ("num", "str")) and not had_blank
+            if mode == "tight":
+                out.append(" " if must else "")
+            elif keep_tight:
+                out.append("")
+            else:
+                out.append(" " * rng.choice([2, 3]))
+        out.append(t)
+    return "".join(out)
+
+
 class Layout:
     """result of laying out a program"""
 
@@ -88,7 +113,7 @@ class Layout:
         return "\n".join(self.lines) + "\n"
 
 
-def free_layout(stmts, rng, user_names, p_break=0.35, p_comment=0.25, p_join=0.2, p_lit_break=0.3, p_tight=0.25,
+def free_layout(stmts, rng, user_names, p_break=0.35, p_comment=0.25, p_join=0.2, p_lit_break=0.3, p_tight=0.25, p_respace=0.2,
                 case="keep", comments=True, indent_mode=None, max_breaks=3):
     L = Layout()
     feats = L.features
@@ -149,7 +174,10 @@ def free_layout(stmts, rng, user_names, p_break=0.35, p_comment=0.25, p_join=0.2
                 L.stmt_of.append(len(L.stmt_span) - 1)
             i += len(group)
             continue
-        text = recase(tighten(s.text) if rng.random() < p_tight else s.text, case, user_names)
+        text = tighten(s.text) if rng.random() < p_tight else s.text
+        if s.kind not in ("format", "end_block_data", "error_stop") and "in out" not in text and rng.random() < p_respace:
+            text = respace(text, rng.choice(["tight", "wide"]), rng)
+        text = recase(text, case, user_names)
         head = ("%d " % s.label if s.label is not None else "") + ("%s: " % s.name if s.name else "")
         toks = split_tokens(text)
         # choose break points: before token k (k >= 1), or inside a string token
